@@ -228,6 +228,84 @@ def field_type_abstract_to_possible_type(rng, ir):
     return [f.name]
 
 
+RELATED_SCALARS = [("Int", "Float"), ("Int", "ID"), ("String", "ID"), ("Float", "Int"), ("ID", "String")]
+
+
+def _swap_named(t, new):
+    return named(new) if t[0] == "named" else (t[0], _swap_named(t[1], new))
+
+
+@edit
+def argument_type_related_scalar(rng, ir):
+    """Int -> Float and the like look like widenings, but a client variable declared with the old type
+    no longer fits the position."""
+    pairs = dict((a, []) for a, _b in RELATED_SCALARS)
+    for a, b in RELATED_SCALARS:
+        pairs[a].append(b)
+    c = pick_arg(rng, ir, lambda a: S.unwrap(a.type) in pairs and not a.has_default)
+    if not c:
+        return None
+    t, f, a = c
+    b = copy.copy(a)
+    b.type = _swap_named(a.type, rng.choice(pairs[S.unwrap(a.type)]))
+    g = copy.copy(f)
+    g.args = [b if x is a else x for x in f.args]
+    replace_field(ir, f, g)
+    return [a.name]
+
+
+@edit
+def input_field_type_related_scalar(rng, ir):
+    pairs = dict((a, []) for a, _b in RELATED_SCALARS)
+    for a, b in RELATED_SCALARS:
+        pairs[a].append(b)
+    c = pick_input_field(rng, ir, lambda f: S.unwrap(f.type) in pairs and not f.has_default)
+    if not c:
+        return None
+    t, f = c
+    if uses_in_defaults(ir, t.name):
+        return None
+    b = copy.copy(f)
+    b.type = _swap_named(f.type, rng.choice(pairs[S.unwrap(f.type)]))
+    t.input_fields = [b if x is f else x for x in t.input_fields]
+    return [f.name]
+
+
+@edit
+def same_nullability_edit_in_an_input_and_an_output_position(rng, ir):
+    """`count: T! -> T` (breaking) together with `arg: T! -> T` (harmless), or both the other way round: the
+    two positions have opposite variance although the printed types are the same."""
+    outs = {}
+    for t in ir.types.values():
+        if t.kind in ("object", "interface"):
+            for f in t.fields:
+                outs.setdefault(S.type_str(f.type), []).append((t, f))
+    cands = []
+    for t in ir.types.values():
+        if t.kind in ("object", "interface"):
+            for f in t.fields:
+                for a in f.args:
+                    if not a.has_default and S.type_str(a.type) in outs:
+                        for how in ("add-nonnull", "drop-nonnull"):
+                            if retype(a.type, how) is not None:
+                                for (ot, of) in outs[S.type_str(a.type)]:
+                                    if of is not f:
+                                        cands.append((f, a, of, how))
+    if not cands:
+        return None
+    f, a, of, how = rng.choice(cands)
+    b = copy.copy(a)
+    b.type = retype(a.type, how)
+    g = copy.copy(f)
+    g.args = [b if x is a else x for x in f.args]
+    replace_field(ir, f, g)
+    og = copy.copy(of)
+    og.type = retype(of.type, how)
+    replace_field(ir, of, og)
+    # the harmless half is a compatible retyping, which diff_schema does not report at all (known finding)
+    return [of.name] if how == "drop-nonnull" else [a.name]
+
+
 @edit
 def add_optional_argument(rng, ir):
     c = pick_field(rng, ir)
